@@ -1084,6 +1084,7 @@ class SortValues(BaseSetIndexSortValues):
             _divisions_by,
             _divisions_by._meta._constructor(divisions).sort_values(),
             ascending=self._divisions_ascending,
+            na_position=self.na_position,
         )
         assigned = Assign(self.frame, "_partitions", partitions)
         shuffled = Shuffle(
